@@ -335,19 +335,22 @@ class Runner:
             # a later open() finds is what it held at that moment
             d.close()
             kind = rng.choice(["lookup-missing", "delete-missing", "refused-value"])
-            self.trace.append(["close; with open(path) as d: updates; " + kind + " raises; open"])
             acc.count("with_blocks_left_by_an_exception")
             missing = b"never-stored-" + rng.randbytes(3)
+            updates = [(rng.choice(UNIVERSE), rng.randbytes(rng.randint(0, 5))) for _ in range(rng.randint(1, 3))]
+            after = dict(model)
+            after.update(updates)
+            dele = rng.choice(sorted(after)) if after and rng.random() < 0.5 else None
+            self.trace.append(["with-block-left-by-exception", kind, [[k.hex(), v.hex()] for k, v in updates],
+                               dele.hex() if dele is not None else None, missing.hex()])
             try:
                 with self.cls.open(path) as d2:
-                    for _ in range(rng.randint(1, 3)):
-                        k, v = rng.choice(UNIVERSE), rng.randbytes(rng.randint(0, 5))
+                    for k, v in updates:
                         d2[k] = v
                         model[k] = v
-                    if model and rng.random() < 0.5:
-                        k = rng.choice(sorted(model))
-                        del d2[k]
-                        del model[k]
+                    if dele is not None:
+                        del d2[dele]
+                        del model[dele]
                     if kind == "lookup-missing":
                         d2[missing]
                     elif kind == "delete-missing":
@@ -562,6 +565,41 @@ def replay(case, acc, ctx):
                 model.clear()
             elif kind == "sync":
                 d.sync()
+            elif kind == "with-block-left-by-exception":
+                d.close()
+                try:
+                    with cls.open(path) as d2:
+                        for k, v in op[2]:
+                            d2[bytes.fromhex(k)] = bytes.fromhex(v)
+                            model[bytes.fromhex(k)] = bytes.fromhex(v)
+                        if op[3] is not None:
+                            del d2[bytes.fromhex(op[3])]
+                            del model[bytes.fromhex(op[3])]
+                        if op[1] == "lookup-missing":
+                            d2[bytes.fromhex(op[4])]
+                        elif op[1] == "delete-missing":
+                            del d2[bytes.fromhex(op[4])]
+                        else:
+                            d2[b"k0"] = "a str value"
+                    return diverged(step, "no exception inside the with block")
+                except (KeyError, TypeError):
+                    pass
+                d = cls.open(path)
+            elif kind.startswith("close; open in a fresh interpreter"):
+                import subprocess
+                import sys
+                d.close()
+                code = ("import sys; sys.path.insert(0, sys.argv[2]); "
+                        "from data_persistence.persistent_dict import PickledDict; d = PickledDict.open(sys.argv[1]); "
+                        "print(len(d)); d.close()")
+                r = subprocess.run([sys.executable, "-B", "-c", code, path, os.environ.get("VERIF_REPO", "/repo")],
+                                   capture_output=True, timeout=60, env=dict(os.environ, PYTHONHASHSEED="12345"))
+                if r.returncode != 0:
+                    return diverged(step, "another interpreter process cannot open the dictionary: "
+                                    + r.stderr.decode(errors="replace").strip().splitlines()[-1][:160])
+                if int(r.stdout.split()[0]) != len(model):
+                    return diverged(step, "another interpreter process finds another number of entries")
+                d = cls.open(path)
             elif kind in ("close+open", "final close+open") or kind.startswith("close;"):
                 d.close()
                 d = cls.open(path)
